@@ -158,6 +158,9 @@ def obligations(tier, seed):
         for ctx in ('in_roll', 'in_split', 'roll_in', 'stream', 'after'):
             for n in (((3, 4) if ctx == 'in_split' else (4, 5)) if q else (4, 5, 6)):
                 obs.append(Ob(PROP, 'runs', dict(ctx=ctx, w=w, s=s, n=n), budget=120 if q else 600, bound=dict(w=w, s=s, items=n, ctx=ctx)))
+    for (w, s) in ((2, 2), (3, 3), (1, 1)):
+        for n in (3, 4, 5):
+            obs.append(Ob(PROP, 'runs', dict(ctx='after', w=w, s=s, n=n), budget=120 if q else 600, bound=dict(w=w, s=s, items=n, ctx='after')))
     gi = 6 if q else 12
     for w in range(1, gi + 1):
         for s in range(1, gi + 1):
